@@ -217,6 +217,34 @@ def w_interval(addr: Optional[int], extra: int, off: int, bsize: int) -> bool:
     return done()
 
 
+def w_oversize(k: int, how: int) -> bool:
+    """
+    pre: 0 <= k < 4 and 0 <= how < 3
+    post: __return__
+    """
+    # stored bytes edited after construction so that they are longer than size (the caller's doing): the written `contents`
+    # field still equals the attribute, byte for byte (writer direction only; such an IR is not self-contained for C01)
+    n = pick(k, 4)
+    h = pick(how, 3)
+    with untraced():
+        ir, m, s, bi0 = _base()
+        bi0.section = None
+        bi = gtirb.ByteInterval(size=n, contents=bytes(range(1, n + 1)), uuid=U(4), section=s)
+        if h == 0:
+            bi.contents = bytearray(range(10, 13 + n))
+        elif h == 1:
+            bi.contents += b"\x07\x08"
+        else:
+            bi.initialized_size = n + 3
+        want = bytes(bi.contents)
+        msg = ir._to_protobuf()
+        pbi = msg.modules[0].sections[0].byte_intervals[0]
+        ok = bytes(pbi.contents) == want and pbi.size == n and len(want) > n
+    if not ok:
+        return fail("contents field differs from the stored bytes when they are longer than size (size=%d, how=%d)" % (n, h))
+    return done()
+
+
 # ---------------------------------------------------------------------------------------------
 # W2 module scalars and enums
 # ---------------------------------------------------------------------------------------------
